@@ -430,8 +430,32 @@ steps: {
 }
 `
 
+// parallel connections with indexed references (renumbering after a deletion)
+const coreParallel = `a: "L1"
+b: "L2"
+c: "L3" {
+  d: "L4"
+  e: "L5"
+  d -> e: "L6"
+  d -> e: "L7"
+  d -> e: "L8"
+  (d -> e)[1].style.stroke: blue
+}
+a -> b: "L9"
+a -> b: "L10"
+a -> b: "L11"
+a -> b: "L12"
+(a -> b)[1].style.stroke: red
+(a -> b)[2].style.opacity: 0.5
+a -- b: "L13"
+`
+
 func coreCases() []Case {
 	var out []Case
+	for a := 0; a < 8; a++ {
+		out = append(out, Case{Files: map[string]string{"index.d2": coreParallel}, Ops: []Op{{K: opSetAttr, A: 0, T: 1, V: 1}, {K: opDeleteEdge, A: a}, {K: opDeleteEdge, A: a}}})
+		out = append(out, Case{Files: map[string]string{"index.d2": coreParallel}, Ops: []Op{{K: opCreateEdge, A: 0, B: 1}, {K: opDeleteEdge, A: a}, {K: opReconnect, A: a, B: 2, F: 1}}})
+	}
 	one := func(text string, ops ...Op) {
 		out = append(out, Case{Files: map[string]string{"index.d2": text}, Ops: ops})
 	}
